@@ -124,17 +124,42 @@ class SWriter:
         self.fs, self.e, self.gz = fs, entry, gz
         self.data = append_to if append_to is not None else SBytes(0, lambda i: 0)
         self.closed = False
+        self.writes = []
+
+    pos = None       # None: at the end (append position)
 
     def write(self, b):
         c = ctx()
         c.interp.heap_write()
         self.fs.op("write", self.e.path)
-        self.data = self.data + as_sbytes(b)
+        b = as_sbytes(b)
+        self.writes.append((self.pos, b))
+        if self.pos is None:
+            self.data = self.data + b
+        else:
+            # positioned write: overwrite [pos, pos+len(b)), extending the file if needed
+            old, p, lb = self.data, self.pos, b.len
+            from .core import smax
+            new_len = smax(old.len, p + lb)
+            def fn(i, old=old, p=p, lb=lb, b=b):
+                cnd = And(i >= p, i < p + lb)
+                if isinstance(cnd, bool):
+                    return b.fn(i - p) if cnd else old.fn(i)
+                return ite(cnd, b.fn(i - p), old.fn(i))
+            regs = [r for r in old.regions]          # (an overwritten range shadows older provenance: newest first in read_uint)
+            regs += [(p + st, ln, kd, pl) for (st, ln, kd, pl) in b.regions]
+            self.data = SBytes(new_len, fn, regions=regs)
+            self.pos = p + lb
         self._commit(complete=False)
         return None
 
     def seek(self, pos, whence=0):
-        raise Unsupported("seek on a modelled plain file (use the shard-file model)")
+        if whence != 0:
+            raise Unsupported("seek whence != 0")
+        ctx().interp.heap_write()
+        self.fs.op("seek", self.e.path)
+        self.pos = pos
+        return pos
 
     def _commit(self, complete):
         if self.e.initial:
@@ -153,6 +178,12 @@ class SWriter:
         self._commit(complete=True)
         self.closed = True
         return False
+
+
+def _pick3(cond, a, b):
+    if isinstance(cond, bool):
+        return a if cond else b
+    return ite(cond, a, b)
 
 
 class SReader:
